@@ -111,7 +111,40 @@ pub struct RunOut {
     pub notes: Vec<(String, Value)>,
 }
 
+/// Runs of one batch are executed in *blocks* of BLOCK consecutive run indices, each block in a
+/// thread of its own and in index order. Thread-local state that a change to the code under test
+/// might introduce (scratch buffers, caches) can therefore leak only from earlier runs of the same
+/// block, in a fixed order — which is what makes such a leak replayable (`prelude_runs` in the
+/// replay file). Process-global state cannot be isolated this way; rust-bio's I/O layer has none.
+pub const BLOCK: u64 = 64;
+
+/// One simulated run in a fresh thread (used wherever single runs are re-executed: confirmation,
+/// minimisation, replay, samples, the determinism self-check).
 pub fn execute(prop: &Property, sc: &Scenario, ch: Choices, keep_trace: bool) -> RunOut {
+    execute_after(prop, sc, ch, keep_trace, 0, &[])
+}
+
+/// As `execute`, but first re-executes the given earlier runs (generate mode, results discarded)
+/// in the same fresh thread, so that thread-local state they leave behind is present.
+pub fn execute_after(prop: &Property, sc: &Scenario, ch: Choices, keep_trace: bool, seed: u64, prelude: &[u64]) -> RunOut {
+    let table = prop.table();
+    std::thread::scope(|s| {
+        std::thread::Builder::new()
+            .stack_size(4 << 20)
+            .spawn_scoped(s, move || {
+                for &r in prelude {
+                    let psc = &prop.scenarios[table[(r % table.len() as u64) as usize]];
+                    let _ = execute_here(prop, psc, Choices::generate(run_seed(seed, prop, psc, r)), false);
+                }
+                execute_here(prop, sc, ch, keep_trace)
+            })
+            .expect("sim: cannot spawn a run thread")
+            .join()
+            .expect("sim: run thread died outside catch_unwind")
+    })
+}
+
+pub fn execute_here(prop: &Property, sc: &Scenario, ch: Choices, keep_trace: bool) -> RunOut {
     let w = World::new(ch, keep_trace);
     w.sig_mix(crate::choice::fnv1a(sc.name.as_bytes()));
     LAST_PANIC.with(|p| *p.borrow_mut() = None);
@@ -412,25 +445,34 @@ pub fn run_batch(prop: &'static Property, cfg: &BatchCfg) -> BatchOut {
                     let mut agg = Agg::default();
                     let mut digs = Vec::new();
                     loop {
-                        let start = next.fetch_add(64, Ordering::Relaxed);
+                        let start = next.fetch_add(BLOCK, Ordering::Relaxed);
                         if start >= runs {
                             break;
                         }
-                        for run in start..(start + 64).min(runs) {
-                            let sci = table[(run % table.len() as u64) as usize];
-                            let sc = &prop.scenarios[sci];
-                            slots[wi]
-                                .started_ms
-                                .store(t0.elapsed().as_millis() as u64, Ordering::Relaxed);
-                            slots[wi].run.store(run, Ordering::Relaxed);
-                            let ch = Choices::generate(run_seed(seed, prop, sc, run));
-                            let out = execute(prop, sc, ch, false);
-                            slots[wi].run.store(u64::MAX, Ordering::Relaxed);
-                            if per_run {
-                                digs.push((run, digest(&out)));
-                            }
-                            agg.absorb(run, sci, sc, &out);
-                        }
+                        // one block = one fresh thread (see BLOCK)
+                        let (agg_ref, digs_ref, table_ref, slots_ref) = (&mut agg, &mut digs, &table, &slots);
+                        std::thread::scope(|s| {
+                            std::thread::Builder::new()
+                                .stack_size(4 << 20)
+                                .spawn_scoped(s, move || {
+                                    for run in start..(start + BLOCK).min(runs) {
+                                        let sci = table_ref[(run % table_ref.len() as u64) as usize];
+                                        let sc = &prop.scenarios[sci];
+                                        slots_ref[wi].started_ms.store(t0.elapsed().as_millis() as u64, Ordering::Relaxed);
+                                        slots_ref[wi].run.store(run, Ordering::Relaxed);
+                                        let ch = Choices::generate(run_seed(seed, prop, sc, run));
+                                        let out = execute_here(prop, sc, ch, false);
+                                        slots_ref[wi].run.store(u64::MAX, Ordering::Relaxed);
+                                        if per_run {
+                                            digs_ref.push((run, digest(&out)));
+                                        }
+                                        agg_ref.absorb(run, sci, sc, &out);
+                                    }
+                                })
+                                .expect("sim: cannot spawn a block thread")
+                                .join()
+                                .expect("sim: block thread died outside catch_unwind");
+                        });
                     }
                     results.lock().unwrap().push((agg, digs));
                 })
@@ -726,7 +768,12 @@ pub fn replay(prop: &Property, file: &Value) -> Result<(bool, String, String), S
             Choices::generate(run_seed(seed, prop, sc, run))
         }
     };
-    let out = execute(prop, sc, ch, true);
+    let prelude: Vec<u64> = file["prelude_runs"]
+        .as_array()
+        .map(|a| a.iter().filter_map(|x| x.as_u64()).collect())
+        .unwrap_or_default();
+    let seed = file["seed"].as_u64().unwrap_or(0);
+    let out = execute_after(prop, sc, ch, true, seed, &prelude);
     if let Some(h) = out.harness_bug {
         return Err(h);
     }
